@@ -1,12 +1,14 @@
 """C19 - concurrent requests do not influence one another, from the very first request."""
 PROP = 'C19'
-LEAN_MODULES = ['FalconModel.SchedProofs', 'FalconModel.NonInterf', 'FalconModel.SharedMemoProofs', 'FalconModel.SharedCompose']
+LEAN_MODULES = ['FalconModel.SchedProofs', 'FalconModel.NonInterf', 'FalconModel.SharedMemoProofs', 'FalconModel.SharedCompose', 'FalconModel.LazyLockProofs']
 DRIVERS = ['scdriver', 'smdriver']
 THEOREMS = [
     # threads x lazy router compile (falcon/routing/compiled.py find / _compile_and_find / _compile), model Sc
     'Sc.Good_mono', 'Sc.init_inv', 'Sc.mk_inv', 'Sc.lazy_same', 'Sc.run_inv', 'Sc.exec_inv', 'Sc.every_thread_gets_serial_result',
     # the mutant without _compile_lock violates the statement (regression witness, by `decide`)
     'Sc.no_lock_witness',
+    # where the lock comes from (model Ll): created with the object = mutual exclusion under every schedule; created on first use = not (witness)
+    'Ll.init_inv', 'Ll.run_inv', 'Ll.exec_inv', 'Ll.eager_lock_mutual_exclusion', 'Ll.lazy_lock_witness',
     # tasks x shared memo caches: generic non-interference
     'Ni.step_coherent', 'Ni.exec_coherent', 'Ni.memo_transparent', 'Ni.noninterference_of_local_steps',
     # the kinds of process-wide state of the inventory: shared bounded memo at lookup/compute/store granularity (model Sm) ...
@@ -23,6 +25,9 @@ STATEMENTS = {
     'Sc.run_inv': 'one step of any thread preserves the invariant (one clause per program counter + "lazy => nobody compiled yet or somebody is compiling" + "compiled => version 1, tables complete")',
     'Sc.Good_mono': 'a step of another thread cannot invalidate what a thread knows, because shared data is only written by the lock holder',
     'Sc.no_lock_witness': 'without the lock, on a 17-step schedule of two threads, thread 0 runs finder 1 on the tables of compile 2 and the router is compiled twice',
+    'Ll.eager_lock_mutual_exclusion': 'a lock object created together with the long-lived object (CompiledRouter.__init__: self._compile_lock = Lock()) - for ANY number of threads and ANY schedule of the steps read-the-attribute / acquire / release: at most one thread is inside the critical section, every thread inside holds that one lock, and no second lock object ever exists (this discharges what Sc assumes: Sh.lock is ONE lock that is part of the initial state)',
+    'Ll.run_inv': 'one step of any thread preserves: the cell holds the eager lock, every thread refers to it only, and "held = [] and nobody inside" or "held = [l0] and exactly one thread inside"',
+    'Ll.lazy_lock_witness': 'a lock created on first use by `lock = self._lock; if lock is None: lock = self._lock = Lock()` is NOT an idempotent lazy cell: on an 8-step schedule of two threads both are inside the critical section at once, holding different lock objects (Lz.lazy_init_idempotent needs a deterministic, unobservable value - a lock is neither)',
     'Ni.noninterference_of_local_steps': 'tasks whose steps read/write only their own component and consult shared state only through a memo of a pure function: after ANY interleaving (and any memo evictions) the state of task i is what i alone reaches in the same number of its own steps',
     'Ni.memo_transparent': 'a lookup through a coherent memo (entries only ever (k, f k)) returns f k',
     'Sm.memo_transparent': 'N threads sharing a bounded memo table of a pure function f, each call being the separate steps lookup / compute (outside any lock) / store: for EVERY schedule of calls, steps and cache_clear()s, every capacity and every store policy (keep or overwrite an entry stored meanwhile by another thread, skip when full, evict ANY entry - LRU is one choice), every completed call for key k returned f k, what a thread is about to store or return is f of its key, the table only ever holds pairs (k, f k) and never more than `cap` of them; results that are exceptions are never stored',
@@ -41,9 +46,9 @@ STATEMENTS = {
 }
 TRUSTED = [
     'sys.settrace line/opcode events as preemption points: CPython switches threads only between bytecodes, so every real interleaving of the traced code is a sequence of these steps (the converse - that each traced step is atomic - holds under the GIL; C-level GIL releases inside one bytecode are not exhibited)',
-    'the scheduler-aware lock (harness/lib_sched.SLock) assigned to router._compile_lock behaves like threading.Lock used as a context manager',
+    'the scheduler-aware lock (harness/lib_sched.SLock) behaves like threading.Lock / RLock (context manager and acquire/release); harness/lib_sched.LockPatch puts one in place of every lock the code under test creates (threading.Lock / RLock called from a file under falcon/, under whatever module-level name) or already holds (module globals, instance and class attributes of the router / app and of the falcon objects they refer to) - no attribute name is assumed; a lock reached only through a closure cell or a C extension stays a real lock (a preempted holder then shows up as a reported deadlock, not as a crash)',
     'the scripted asyncio gate (one task runs between two decisions of the controller) for the ASGI interleavings',
-    'the AST scan of harness/lib_inventory.py as the enumeration of process-wide state: purely syntactic detectors (memo decorators and their aliases/assignment forms, module-level containers and instances, mutable default arguments, class attributes, instance attributes of long-lived classes written outside __init__, nonlocal cells, objects handed to local helper closures); state reached only through other aliases, setattr()/__dict__, C extensions or modules outside falcon/ (and falcon/testing, bench, cmd, vendor, cyutil) is not seen',
+    'the AST scan of harness/lib_inventory.py as the enumeration of process-wide state: purely syntactic detectors (memo decorators and their aliases, memo applications as call expressions anywhere, partial objects binding containers, module-level containers and instances, mutable default arguments, class attributes, instance attributes of long-lived classes written outside __init__ directly or through a local alias, lazy-initialisation idioms, nonlocal cells, objects handed to local helper closures); state reached only through other aliases, setattr()/__dict__, C extensions or modules outside falcon/ (and falcon/testing, bench, cmd, vendor, cyutil) is not seen',
     'the hand-written classification of the inventory table (kind + justification per item): the check ties its SHAPE to the source on every run and validates "immutable result" dynamically, but e.g. "written by add_route() only" is a reading of the code',
     'functools.lru_cache (C implementation) executes lookup and store atomically and calls the wrapped function in between; the model tie observes it through cache_info() after every call',
 ]
@@ -52,29 +57,48 @@ ASSUMPTIONS = [
     'generated resources, middleware and error handlers keep no state outside req/resp/params (the property is about the framework, not about user code)',
 ]
 RULE = ('(a) router race: routers generated from 3 route sets (fields, int/uuid converters, complex segments) x 2 threads (quick) / 2 and 3 threads (thorough) issuing the first-ever find() for PRNG-chosen paths; '
-        'every single-preemption schedule at line granularity (opcode granularity inside find/_compile_and_find), two-preemption schedules with the first preemption at an opcode of find/_compile_and_find or at the first/last lines of _compile and the second one densely after it and strided up to the end, plus PRNG-chosen 2-4 preemption schedules (quick: all single preemptions and a PRNG subset of the rest); each explored schedule is replayed through the Lean model (locking = true); '
-        '(b) 2-3 concurrent ASGI requests over generated apps (routes with fields/converters, middleware, media, errors, custom error handlers), interleaved at every receive/send and at explicit awaits inside middleware/responders in a PRNG-chosen order, and 2-3 WSGI threads (deterministic scheduler with PRNG preemption points at line events inside falcon/, and free-running threads), each compared with one-at-a-time execution on an identical app of its own (the concurrent app is fresh: its requests are its first ever); '
+        'every single-preemption schedule at line granularity (opcode granularity inside find/_compile_and_find), two-preemption schedules with the first preemption at an opcode of find/_compile_and_find or at the first/last lines of _compile and the second one densely after it and strided up to the end, plus PRNG-chosen 2-4 preemption schedules (quick: all single preemptions and a PRNG subset of the rest); '
+        'THE LAZY-COMPILE WINDOW, deeper: 3 (sometimes 2) first-ever lookups x up to 3 preemptions over 5 route sets (two of them minimal: 2 routes, all three side tables in use) as a schedule tree - first preemption at every point of thread 0 between its entry into find() and its entry into _compile() '
+        '(attribute accesses of self, `with` entry/exit at opcode granularity, every line of whatever helper - a property, a lock factory - runs in between), to either other thread; each further preemption at a point of the run recorded for the prefix where switching is distinguishable: '
+        'such a window point of any thread, or just before / just after a line that changed the router\'s instance state (found by comparing snapshots of all slots and __dict__ entries, whatever their names), to either other thread; '
+        'quick: PRNG root-to-leaf walks (1 x 3 x 4 leaves per walk, every node is itself an executed schedule), thorough: the whole tree for the minimal route sets within a run budget, sliced over the shards; '
+        'every lock the router creates or holds - eagerly or lazily, under any attribute name - is made scheduler-aware by patching threading.Lock/RLock for callers under falcon/ and adopting existing lock objects (no attribute name assumed); '
+        'each explored schedule is replayed through the Lean model Sc (locking = true, one lock that exists before the first request: the reply carries locks=<created>:<eagerly>) and its lock protocol through the model Ll (eager); '
+        'self-tests of the exploration on the same schedules: a no-op lock (Sc replay without locking) and a lock created on first use by an unsynchronised check-then-set (Ll replay, lazy) put in place of the router\'s lock(s); '
+        '(b) 2-3 concurrent ASGI requests over generated apps (routes with fields/converters, LITERAL-ONLY routes, middleware, media, errors, custom error handlers; in half of the apps a resource middleware that MUTATES what the framework hands it between suspension points: '
+        'injects responder arguments through params (scalar and a mutable trail), completes the parsed req.get_media() document in place, appends to lists/dicts it keeps in req.context / resp.context; responders take **kwargs and report them late, and complete the parsed document in place before a suspension point), '
+        'interleaved at every receive/send and at explicit awaits inside middleware/responders in a PRNG-chosen order, and 2-3 WSGI threads (deterministic scheduler with PRNG preemption points at line events inside falcon/, and free-running threads), each compared with one-at-a-time execution on an identical app of its own '
+        '(the concurrent app is fresh: its requests are its first ever); request groups: 60% independent (every request its own token in path/query/body/headers), 20% all of one kind, 20% TWINS - identical method, path, query string and body BYTES, differing only in the X-Tok header (and headers derived from it); '
         '(c) inventory: every .py under $FALCON_REPO/falcon (without testing/bench/cmd/vendor/cyutil) is parsed with `ast` and every item of process-wide mutable state found by the detectors is compared with the classification table (one case per item and per per-request class; a new item, a changed decorator/shape, a stale row are mismatches naming the item); '
-        'every memoised function the scan finds - in the table or not - is called twice with equal PRNG arguments, the first result mutated in place deeply, the next call compared with a fresh uncached computation; for the private mutable-result memos of mediatypes the same at their only caller quality(); '
+        'detectors: memo decorators and their aliases, EVERY application lru_cache(...)(f) / cache(f) written as a call expression (anywhere in the right-hand side of an assignment to a module, class or instance attribute, in a return, an argument ...), functools.partial binding a mutable container, module-level containers/instances, mutable defaults, class-level mutable attributes, '
+        'instance attributes of long-lived classes written outside __init__ directly or through a local alias (x = self.X; x[k] = v), and lazy initialisation (if self.X is None / not self.X / not hasattr / try-except AttributeError: self.X = V, also through an alias and chained assignment) with the kind of value created - a lazily created LOCK is a shape no proved kind admits; '
+        'every memoised function the scan finds - in the table or not, module-level or created in a method and stored on a default-constructed instance - is called twice with equal PRNG arguments, the first result mutated in place deeply, the next call compared with a fresh uncached computation; for the private mutable-result memos of mediatypes the same at their only caller quality(); '
         '(d) memo model: for each lru_cache-wrapped function of the inventory, PRNG call sequences of 0.5-3 x maxsize calls over maxsize+k keys (hits, misses, evictions, exceptions, cache_clear) on one thread, and 2-3 threads with 1-3 calls each over 1-3 keys under the deterministic scheduler with 1-4 PRNG preemptions inside the Python body (between lookup and store), the cache preloaded to (almost) full in 60% of the races; the ASGI header-name cache with 20-90 names; value/hits/misses/size after every call are replayed through the model; '
         'non-trivial = at least one preemption took place while another request was in flight / a sequence with hits and evictions / an inventory item; distinct = distinct (route set, paths, switch points) / (app, requests, schedule seed) / (function, call sequence) / item')
-PARTIAL = ('proof, partial: proved are the locking protocol of the lazy router compile, the transparency of a shared bounded memo and of racing lazy initialisation under every schedule, and their composition with per-request programs '
+PARTIAL = ('proof, partial: proved are the locking protocol of the lazy router compile (given one lock that exists before the first request - which is what an eagerly created lock provides under every schedule, Ll.eager_lock_mutual_exclusion, and what a lock created on first use does not, Ll.lazy_lock_witness), the transparency of a shared bounded memo and of racing lazy initialisation under every schedule, and their composition with per-request programs '
            '(Cp.falcon_shared_noninterference). The hypothesis of that composition - every write after import goes to the request\'s own objects or to an inventoried item of kind memo / lazy / lock-protected - is established by a checked '
            'syntactic inventory (AST detectors + hand classification, tied to the source on every run), not by a semantic analysis of the Python code: aliasing beyond local helper closures, setattr/__dict__ writes and state outside falcon/ are not seen; '
            'the items of kind configuration rest on the assumption that the app is not reconfigured during traffic, the items of kind OTHER (falcon.util.sync runner/executor) and the purity of the memoised functions are covered only by the '
            'interleaved-vs-serial runs and the mutable-result oracles; that per-request steps touch only req/resp/params is still validated dynamically. CPython\'s true atomicity (coarser than the traced steps) and '
-           'C-level GIL releases are not exhibited; the replay of real router schedules maps opcode/line events to the model\'s 12 step kinds (the three table loads of one call count as one step); lru_cache\'s lookup and store are taken as atomic.')
+           'C-level GIL releases are not exhibited; the replay of real router schedules maps opcode/line events to the model\'s 12 step kinds (the three table loads of one call count as one step); lru_cache\'s lookup and store are taken as atomic. '
+           'The exploration of the lazy-compile window with 3 threads x 3 preemptions is exhaustive only over the reduced set of switch points (window points + state-changing lines) and, in the quick tier, sampled.')
 JOBS = {'quick': 4, 'thorough': 16}
 
 
 def run(ctx):
-    _inventory(ctx)
-    _memo_oracles(ctx)
-    _memo_tie(ctx)
-    _router_race(ctx)
-    _asgi_tasks(ctx)
-    _wsgi_threads(ctx)
-    _audit_after_traffic(ctx)
+    for part in (_inventory, _memo_oracles, _memo_tie, _router_race, _asgi_tasks, _wsgi_threads, _audit_after_traffic):
+        try:
+            part(ctx)
+        except Exception as e:  # noqa
+            # A crash is not a verdict.  Every part states what it assumes about the code under test by checking it; if one still dies on a
+            # tree that differs from the one the model describes, that is a disagreement between model/harness and code: it is recorded as a
+            # correspondence mismatch carrying the traceback, and the remaining parts run on (they may find the concrete failing input).
+            import traceback
+            sess = ctx.session('assumptions of the harness about the code under test hold (no part of the check died)', 'smdriver')
+            sess.case({'part': part.__name__, 'exception': type(e).__name__, 'text': str(e)[:300], 'traceback': traceback.format_exc()[-1500:]})
+            sess.op(f'assumption {part.__name__} {type(e).__name__}', 'holds')
+            sess.finish()
+            ctx.count('parts_that_died_' + part.__name__)
 
 
 # ------------------------------------------------------------------ (a) threads x lazy router compile
@@ -83,32 +107,64 @@ ROUTESETS = [
     ['/a/{x}', '/a/{x}/b', '/c/{y:int}', '/{z}-{w}'],
     ['/items', '/items/{item_id:int}', '/items/{item_id:int}/parts/{part}', '/u/{uid:uuid}', '/files/{name}.{ext}'],
     ['/', '/x/{a}/{b}/{c}', '/x/{a}/lit', '/v{ver:int}/ping'],
+    # small routers for the deep exploration of the lazy-compile window (few events per compile, still all three side tables in use)
+    ['/c/{y:int}', '/{z}-{w}'],
+    ['/lit', '/p/{q}'],
 ]
+N_FLAT_ROUTESETS = 3
 PATHS = [
     ['/a/1', '/c/7', '/a/q/b', '/k-v', '/nope/x', '/c/notint'],
     ['/items', '/items/12', '/items/3/parts/p9', '/u/12345678-1234-5678-1234-567812345678', '/files/r.txt', '/items/x'],
     ['/', '/x/1/2/3', '/x/9/lit', '/v2/ping', '/v/ping', '/x/1/2'],
+    ['/c/7', '/k-v', '/c/12', '/a-b', '/c/x', '/nope'],
+    ['/lit', '/p/1', '/p/zz', '/lit', '/p', '/nope'],
 ]
+
+
+_DEV = {}       # development switches (set by hand from a scratch script; empty in production)
 
 
 def _router_race(ctx):
     import dis
     import linecache
+    import sys
     import threading
     import lib_sched
     from falcon.routing import CompiledRouter
     import falcon.routing.compiled as comp
     rnd = ctx.rng
     COMPILED = comp.__file__
-    co_find = CompiledRouter.find.__code__
-    co_caf = CompiledRouter._compile_and_find.__code__
-    co_compile = CompiledRouter._compile.__code__
+    FALCON_DIR = __import__('os').path.dirname(__import__('falcon').__file__)
+
+    sess = ctx.session('router race under an explored schedule = Sc model replay (locking)', 'scdriver')
+    sess_nl = ctx.session('router race with a no-op lock injected by the harness = Sc model replay (no locking): compiles, order, paths', 'scdriver',
+                          norm=_norm_nolock)
+
+    sess_ll = ctx.session('the lock object(s) behind the router race = Ll model replay: the real router (lock created in __init__ = eager) on every explored '
+                          'schedule, and a lazily created lock put in its place by the harness: who acquired which lock, locks created, threads inside at once', 'smdriver')
+
+    # ---- what the harness assumes about the router, checked instead of assumed: the three methods the model Sc transcribes.  The LOCK is
+    #      not among the assumptions: whatever lock objects the code under test creates or holds - under any attribute name, eagerly or
+    #      lazily - are made scheduler-aware by lib_sched.LockPatch.  If a method is gone the model cannot be tied (reported as a
+    #      correspondence mismatch); the races still run at line granularity and are judged by the serial-result oracle.
+    def code_of(name):
+        f = getattr(CompiledRouter, name, None)
+        return getattr(f, '__code__', None)
+    co_find, co_caf, co_compile = code_of('find'), code_of('_compile_and_find'), code_of('_compile')
+    anchors_ok = None not in (co_find, co_caf, co_compile)
+    if not anchors_ok:
+        if ctx.shard[0] == 0:
+            missing = [n for n, c in (('find', co_find), ('_compile_and_find', co_caf), ('_compile', co_compile)) if c is None]
+            sess.case({'anchor': 'methods of CompiledRouter transcribed by the model Sc', 'missing': missing})
+            sess.op('anchor ' + ','.join(missing), 'present')
+        ctx.count('race_model_anchor_missing')
+    locks = lib_sched.LockPatch([comp], lambda fn: fn.startswith(FALCON_DIR))
 
     def tags_for(code, spec):
         """offset -> tag for the n-th instruction matching (opname prefix, argval)"""
         out = {}
         seen = {}
-        ins = list(dis.get_instructions(code))
+        ins = list(dis.get_instructions(code)) if code is not None else []
         for idx, i in enumerate(ins):
             key = (i.opname, i.argval if isinstance(i.argval, str) else None)
             seen[key] = seen.get(key, 0) + 1
@@ -126,8 +182,27 @@ def _router_race(ctx):
         elif seen_rv and i.opname.startswith('CALL'):
             tag_find[i.offset] = 'F.call'
             break
-    tag_caf, _ = tags_for(co_caf, {('LOAD_ATTR', '_find', 1): 'C.test', ('STORE_ATTR', '_find', 1): 'C.publish',
-                                   ('LOAD_ATTR', '_find', 2): 'C.reFind', ('LOAD_ATTR', '_return_values', 1): 'C.reTables'})
+    tag_caf, ins_caf = tags_for(co_caf, {('LOAD_ATTR', '_find', 1): 'C.test', ('STORE_ATTR', '_find', 1): 'C.publish',
+                                         ('LOAD_ATTR', '_find', 2): 'C.reFind', ('LOAD_ATTR', '_return_values', 1): 'C.reTables'})
+    # opcode events of find/_compile_and_find that are about to touch something other threads can see: an attribute of `self`, entering a
+    # `with` block (acquire) and the __exit__ call that leaves it (release).  Calls of traced Python functions need no point of their own.
+    def shared_offsets(code, ins):
+        out = set()
+        me = code.co_varnames[0] if code.co_argcount else None
+        for k, i in enumerate(ins):
+            if i.opname in ('LOAD_ATTR', 'STORE_ATTR', 'DELETE_ATTR', 'LOAD_METHOD'):
+                prev = ins[k - 1] if k else None
+                if prev is not None and prev.opname.startswith('LOAD_FAST') and prev.argval == me:
+                    out.add(i.offset)
+            elif i.opname == 'BEFORE_WITH' or i.opname == 'BEFORE_ASYNC_WITH':
+                out.add(i.offset)
+            elif i.opname.startswith('CALL') and k >= 3 and all(x.opname == 'LOAD_CONST' and x.argval is None for x in ins[k - 3:k]):
+                out.add(i.offset)
+        return out
+    shared_off = {}
+    for code, ins in ((co_find, ins_find), (co_caf, ins_caf)):
+        if code is not None:
+            shared_off[code] = shared_offsets(code, ins)
     fill_cache = {}
 
     def is_fill(lineno):
@@ -163,89 +238,174 @@ def _router_race(ctx):
             serial_cache[k] = canon(r.find(path))
         return serial_cache[k]
 
+    _NOATTR = object()
+
+    def state_names(router):
+        """the names of the instance state of the router (slots and __dict__; never properties: reading one may create state)"""
+        names = list(getattr(router, '__dict__', {}) or {})
+        for c in type(router).__mro__:
+            sl = c.__dict__.get('__slots__', ())
+            names += [sl] if isinstance(sl, str) else [x for x in sl if x not in ('__dict__', '__weakref__')]
+        return names
+
+    def snapshot(router, names):
+        out = []
+        for nm in names:
+            try:
+                v = object.__getattribute__(router, nm)
+            except AttributeError:
+                v = _NOATTR
+            out.append((id(v), len(v) if type(v) in (list, dict, set) else -1))
+        return out
+
     def execute(rs, paths, switches, lockmode='lock', record=False):
         """One race under one schedule.  Returns (results, sched, info)."""
         n = len(paths)
-        router = build(rs)
         s = lib_sched.Sched(n, switches)
         tls = threading.local()
-        router._compile_lock = (lib_sched.SLock if lockmode == 'lock' else lib_sched.NoLock)(s, lambda: tls.i)
-        info = {'ev': [], 'S': {}, 'ncomp': 0, 'compile_calls': 0, 'where': [] if record else None}
-        stub = router._compile_and_find
+        locks.activate(s, lambda: tls.i, lockmode)
+        try:
+            router = build(rs)
+            locks.adopt(router)
+            eager_locks = len(locks.created)
+            info = {'ev': [], 'S': {}, 'ncomp': 0, 'compile_calls': 0, 'where': [] if record else None, 'hot': {} if record else None}
+            stub = getattr(router, '_compile_and_find', None)
+            depth = [0] * n                      # > 0: thread i is inside _compile()
+            names = state_names(router) if record else None
+            last_snap = [snapshot(router, names)] if record else None
+            last_ev_of = [None] * n
 
-        def on_step(me, step):
-            # called right after the tagged instruction of thread `me` has executed, before any other thread runs
-            if step == 'C.test':
-                if router._find == stub:
-                    info['ncomp'] += 1
-                    info['S'][me] = info['ncomp']
-                    info['ev'].append(f"S{me}:{info['ncomp']}")
-            elif step == 'C.publish':
-                info['ev'].append(f"P{me}:{info['S'].get(me, '?')}")
-        s.on_step = on_step
+            def on_step(me, step):
+                # called right after the tagged instruction of thread `me` has executed, before any other thread runs
+                if step == 'C.test':
+                    if getattr(router, '_find', None) == stub:
+                        info['ncomp'] += 1
+                        info['S'][me] = info['ncomp']
+                        info['ev'].append(f"S{me}:{info['ncomp']}")
+                elif step == 'C.publish':
+                    info['ev'].append(f"P{me}:{info['S'].get(me, '?')}")
+            s.on_step = on_step
 
-        def tracer_for(i):
-            def local_line(frame, event, arg):
-                if event == 'line':
-                    if record:
-                        info['where'].append((s.ev + 1, i, frame.f_code.co_name, frame.f_lineno, None))
-                    s.point(i, 'fill' if (frame.f_code.co_filename == COMPILED and is_fill(frame.f_lineno)) else None)
-                elif event == 'return' and frame.f_code is co_compile:
-                    s.point(i, 'C.compileReturn')
-                return local_line
+            def rec(i, fn, lineno, off, window_hot):
+                """recording run: remember where global event s.ev + 1 is and whether a preemption there is worth exploring"""
+                e = s.ev + 1
+                info['where'].append((e, i, fn, lineno, off))
+                snap = snapshot(router, names)
+                if snap != last_snap[0]:
+                    # the code thread i ran since its previous event changed the router's state: preempting i just before and just
+                    # after that write are the two distinguishable choices
+                    last_snap[0] = snap
+                    if last_ev_of[i] is not None:
+                        info['hot'].setdefault(last_ev_of[i], 'before-write')
+                    info['hot'].setdefault(e, 'after-write')
+                if window_hot:
+                    info['hot'].setdefault(e, 'window')
+                last_ev_of[i] = e
+            if record and lockmode == 'lazy':
+                locks.on_point = lambda me: rec(me, '<lazily created lock>', 0, None, True)
 
-            def local_op_find(frame, event, arg):
-                if event == 'opcode':
-                    if record:
-                        info['where'].append((s.ev + 1, i, 'find', frame.f_lineno, frame.f_lasti))
-                    s.point(i, tag_find.get(frame.f_lasti))
-                return local_op_find
-
-            def local_op_caf(frame, event, arg):
-                if event == 'opcode':
-                    if record:
-                        info['where'].append((s.ev + 1, i, '_compile_and_find', frame.f_lineno, frame.f_lasti))
-                    s.point(i, tag_caf.get(frame.f_lasti))
-                return local_op_caf
-
-            def tr(frame, event, arg):
-                co = frame.f_code
-                if co is co_compile:
-                    info['compile_calls'] += 1
-                if co is co_find:
-                    frame.f_trace_opcodes = True
-                    frame.f_trace_lines = False
-                    return local_op_find
-                if co is co_caf:
-                    frame.f_trace_opcodes = True
-                    frame.f_trace_lines = False
-                    return local_op_caf
-                fn = co.co_filename
-                if fn == COMPILED or fn == '<string>':
+            def tracer_for(i):
+                def local_line(frame, event, arg):
+                    if event == 'line':
+                        if record:
+                            rec(i, frame.f_code.co_name, frame.f_lineno, None, depth[i] == 0)
+                        s.point(i, 'fill' if (frame.f_code.co_filename == COMPILED and is_fill(frame.f_lineno)) else None)
+                    elif event == 'return' and frame.f_code is co_compile:
+                        depth[i] -= 1
+                        s.point(i, 'C.compileReturn')
                     return local_line
-                return None
-            return tr
 
-        def body(i):
-            def b():
-                tls.i = i
-                return canon(router.find(paths[i]))
-            return b
-        # tls.i must be set before the tracer runs: do it in the body wrapper, the tracer only fires inside find()
-        results = lib_sched.run_threads(s, [body(i) for i in range(n)], tracer_for)
-        info['compiled_finally'] = router._find != stub
+                def local_op_find(frame, event, arg):
+                    if event == 'opcode':
+                        if record:
+                            rec(i, 'find', frame.f_lineno, frame.f_lasti, frame.f_lasti in shared_off[co_find])
+                        s.point(i, tag_find.get(frame.f_lasti))
+                    return local_op_find
+
+                def local_op_caf(frame, event, arg):
+                    if event == 'opcode':
+                        if record:
+                            rec(i, '_compile_and_find', frame.f_lineno, frame.f_lasti, frame.f_lasti in shared_off[co_caf])
+                        s.point(i, tag_caf.get(frame.f_lasti))
+                    return local_op_caf
+
+                def tr(frame, event, arg):
+                    co = frame.f_code
+                    if co is co_compile:
+                        info['compile_calls'] += 1
+                        depth[i] += 1
+                    if anchors_ok and co is co_find:
+                        frame.f_trace_opcodes = True
+                        frame.f_trace_lines = False
+                        return local_op_find
+                    if anchors_ok and co is co_caf:
+                        frame.f_trace_opcodes = True
+                        frame.f_trace_lines = False
+                        return local_op_caf
+                    fn = co.co_filename
+                    if fn == COMPILED or fn == '<string>':
+                        return local_line
+                    return None
+                return tr
+
+            def body(i):
+                def b():
+                    tls.i = i
+                    return canon(router.find(paths[i]))
+                return b
+            # tls.i must be set before the tracer runs: do it in the body wrapper, the tracer only fires inside find()
+            results = lib_sched.run_threads(s, [body(i) for i in range(n)], tracer_for)
+            info['compiled_finally'] = getattr(router, '_find', None) != stub
+            info['locks'] = (len(locks.created), eager_locks)
+            # the lock protocol as the model Ll sees it: one entry per step (read the cell / create / store / acquire or find taken / release)
+            numbering = {id(lk): k + 1 for k, lk in enumerate(locks.lazy_created if lockmode == 'lazy' else locks.created)}
+            ll_sched, acq, inside, maxcrit, state = [], [], 0, 0, {}
+            for t, st in s.steps:
+                if st in ('L.read', 'L.create', 'L.store', 'blocked'):
+                    if st == 'blocked' and lockmode != 'lazy' and t not in state:
+                        ll_sched.append(t)          # the real code's read of the lock attribute has no event of its own
+                        state[t] = 'ref'
+                    ll_sched.append(t)
+                elif st == 'acquire':
+                    if lockmode != 'lazy' and t not in state:
+                        ll_sched.append(t)
+                    ll_sched.append(t)
+                    state[t] = 'crit'
+                    inside += 1
+                    maxcrit = max(maxcrit, inside)
+                elif st == 'release':
+                    ll_sched.append(t)
+                    state[t] = 'done'
+                    inside -= 1
+            info['ll'] = {'sched': ll_sched, 'state': state, 'maxcrit': maxcrit, 'nlocks': len(numbering),
+                          'acq': [(t, numbering.get(id(lk), 0)) for t, lk in getattr(s, 'acq_log', [])]}
+        finally:
+            locks.deactivate()
         return results, s, info
 
-    sess = ctx.session('router race under an explored schedule = Sc model replay (locking)', 'scdriver')
-    sess_nl = ctx.session('router race with a no-op lock injected by the harness = Sc model replay (no locking): compiles, order, paths', 'scdriver',
-                          norm=_norm_nolock)
     O_A = ('router race: every thread gets exactly the serial result, no exception, no deadlock, the router ends compiled exactly once')
 
     STEP_OK = {'F.loadFind', 'F.loadTables', 'F.call', 'blocked', 'acquire', 'C.test', 'fill', 'C.compileReturn', 'C.publish', 'release', 'C.reFind', 'C.reTables'}
+    done_keys = set()
+    failures = [0]
+    pending_failures = []
 
-    def check(rs, paths, switches, nthreads, selftest=False):
-        lockmode = 'nolock' if selftest else 'lock'
-        results, s, info = execute(rs, paths, switches, lockmode)
+    def ll_case(info, nthreads, eager, meta):
+        """the lock side of the run through the model Ll (only when every thread got out of the lock protocol)"""
+        ll = info['ll']
+        if any(v != 'done' for v in ll['state'].values()):
+            ctx.count('ll_replay_skipped_thread_stuck_in_lock_protocol')
+            return
+        pcs = ' '.join(f't{i}=' + ('done' if i in ll['state'] else 'start') for i in range(nthreads))
+        acq = ','.join(f'{t}:{l}' for t, l in ll['acq']) or '-'
+        sess_ll.case(meta)
+        sess_ll.op(f"lzlock {1 if eager else 0} {nthreads} {','.join(map(str, ll['sched'])) or '-'}",
+                   f"{pcs} acq={acq} nlocks={ll['nlocks']} maxcrit={ll['maxcrit']} agree=1")
+
+    def check(rs, paths, switches, nthreads, selftest=None, record=False, family='flat'):
+        """selftest: None (the router as it is) | 'nolock' (a lock that does not lock) | 'lazy' (a lock created on first use)"""
+        lockmode = selftest or 'lock'
+        results, s, info = execute(rs, paths, switches, lockmode, record=record)
         want = [('ok', serial(rs, p)) for p in paths]
         ntab = len(build_tables[rs])
         sched_ids = [str(t) for t, st in s.steps if st in STEP_OK]
@@ -254,46 +414,81 @@ def _router_race(ctx):
             mine = [st for t, st in s.steps if t == i]
             paths_cls.append('c' if i in info['S'] else 'w' if 'acquire' in mine else 'd' if 'F.call' in mine else '-')
         outs = ' '.join(f"t{i}=" + (f'done:1:1:{ntab}' if results[i] == want[i] else 'BAD') for i in range(nthreads))
-        reply = f"{outs} ncomp={info['ncomp']} ev={','.join(info['ev']) or '-'} paths={','.join(paths_cls)} agree=1"
+        # the model has ONE lock that exists before the first request (Sc.Sh.lock): the locks the real router created, and how many of them eagerly
+        nlocks = 'locks=%d:%d' % info['locks']
+        reply = f"{outs} ncomp={info['ncomp']} ev={','.join(info['ev']) or '-'} paths={','.join(paths_cls)} {nlocks} agree=1"
         line = f"exec {0 if selftest else 1} {ntab} {nthreads} {','.join(sched_ids) or '-'}"
+        meta = {'routes': rs, 'paths': paths, 'switches': sorted(switches.items())}
+        if selftest == 'lazy':
+            ll_case(info, nthreads, False, dict(meta, lock='created on first use (harness mutant)'))
+            ctx.count('selftest_lazylock_schedules')
+            ctx.count('selftest_lazylock_two_threads_inside_at_once', int(info['ll']['maxcrit'] >= 2))
+            ctx.count('selftest_lazylock_nonserial_outcome', int(results != want))
+            return (results != want or info['compile_calls'] != 1), s, info
         if selftest:
             if all(r[0] == 'ok' for r in results):
                 # a thread that dies inside _compile() (tables reset under its feet) never publishes; the model has no
                 # exceptions, so only runs in which every thread returned are replayed
-                sess_nl.case({'routes': rs, 'paths': paths, 'switches': sorted(switches.items())})
-                sess_nl.op(line, reply)
+                if anchors_ok:
+                    sess_nl.case(meta)
+                    sess_nl.op(line, reply)
             else:
                 ctx.count('selftest_nolock_thread_died')
-            return results != want or info['compile_calls'] != 1
-        sess.case({'routes': rs, 'paths': paths, 'switches': sorted(switches.items())})
-        sess.op(line, reply)
+            return (results != want or info['compile_calls'] != 1), s, info
+        key = (rs, tuple(paths), tuple(sorted(switches.items())))
+        if key in done_keys:
+            return False, s, info
+        done_keys.add(key)
+        if anchors_ok:
+            sess.case(meta)
+            sess.op(line, reply)
+        if info['locks'][0] == info['locks'][1] <= 1:
+            ll_case(info, nthreads, True, dict(meta, lock='the router\'s own'))
         why = None
         if s.dead or any(r[0] == 'deadlock' for r in results):
             why = 'deadlock / a thread did not finish'
         elif results != want:
             bad = [i for i in range(nthreads) if results[i] != want[i]]
             why = f'thread {bad[0]} got {results[bad[0]]}, serial execution gives {want[bad[0]]}'
-        elif info['compile_calls'] != 1 or not info['compiled_finally']:
+        elif co_compile is not None and (info['compile_calls'] != 1 or not info['compiled_finally']):
             why = f"_compile() ran {info['compile_calls']} times (router compiled at the end: {info['compiled_finally']})"
-        ctx.oracle(O_A, why is None, why, {'routes': ROUTESETS[rs], 'paths': paths, 'switch_points': sorted(switches.items()),
-                                           'model_schedule': ','.join(sched_ids), 'compile_events': info['ev']})
+        case = {'routes': ROUTESETS[rs], 'paths': paths, 'switch_points': sorted(switches.items()),
+                'model_schedule': ','.join(sched_ids), 'compile_events': info['ev'],
+                'locks_created_by_the_router': info['locks'][0], 'of_them_before_the_first_request': info['locks'][1],
+                'results': results if why else None}
+        if why is None:
+            ctx.oracle(O_A, True, None, case)
+        else:
+            # reported at the end of the part, a wrong or failed RESPONSE (what the property is about) before a second compile (what the protocol forbids)
+            pending_failures.append((0 if (results != want and not s.dead) else 1, len(pending_failures), why, case))
         ctx.seen(('a', rs, tuple(paths), tuple(sorted(switches.items()))), s.preemptions > 0)
-        ctx.count(f'race_{nthreads}thr_{len(switches)}preempt')
+        ctx.count(f'race_{family}_{nthreads}thr_{len(switches)}preempt')
         ctx.count('race_paths_' + ''.join(sorted(paths_cls)))
-        return why is not None
+        if why is not None:
+            failures[0] += 1
+            if results != want and not s.dead:
+                ctx.count('race_failures_with_a_wrong_or_failed_response')
+        return why is not None, s, info
 
     # tables sizes (= number of appends to return_values per compile)
     build_tables = {}
     for rs in range(len(ROUTESETS)):
         r = build(rs)
         r.find('/')
-        build_tables[rs] = list(r._return_values)
+        build_tables[rs] = list(getattr(r, '_return_values', None) or [])
+
+    # warm-up: CPython 3.12 instruments a code object for opcode events when f_trace_opcodes is first set on one of its frames, and the frame
+    # that is already running misses them - the first traced race of a process would number its events differently from all later ones
+    for _ in range(2):
+        execute(0, [PATHS[0][0], PATHS[0][1]], {}, 'lock', record=True)
 
     i0, k0 = ctx.shard
     nthreads_list = [2] if ctx.quick else [2, 3]
+    if _DEV.get('skip_flat'):
+        nthreads_list = []
     selftest_bad = 0
     selftest_n = 0
-    for rs in range(len(ROUTESETS)):
+    for rs in range(N_FLAT_ROUTESETS):
         for nthreads in nthreads_list:
             paths = [rnd.choice(PATHS[rs]) for _ in range(nthreads)]
             # serial pass with recording: where is each global event?
@@ -330,7 +525,7 @@ def _router_race(ctx):
                 singles = [c for c in cands if len(c) == 1]
                 rest = [c for c in cands if len(c) > 1]
                 rnd.shuffle(rest)
-                cands = singles + rest[:ctx.n(6000) * k0 // len(ROUTESETS)]
+                cands = singles + rest[:ctx.n(6000) * k0 // N_FLAT_ROUTESETS]
             for idx, sw in enumerate(cands):
                 if idx % k0 != i0:
                     continue
@@ -341,10 +536,134 @@ def _router_race(ctx):
                 if idx % k0 != i0:
                     continue
                 selftest_n += 1
-                selftest_bad += bool(check(rs, paths, sw, nthreads, selftest=True))
-    ctx.notes.append(f'shard {i0}: self-test with a no-op lock injected into router._compile_lock: {selftest_bad} of {selftest_n} explored schedules give a non-serial outcome')
+                selftest_bad += bool(check(rs, paths, sw, nthreads, selftest='nolock')[0])
+    ctx.notes.append(f'shard {i0}: self-test with a no-op lock created by the harness wherever the router asks for a lock: {selftest_bad} of {selftest_n} explored schedules give a non-serial outcome')
     ctx.count('selftest_nolock_schedules', selftest_n)
     ctx.count('selftest_nolock_exposed', selftest_bad)
+
+    # ---- the lazy-compile window, deeper: 3 (sometimes 2) first-ever lookups x up to 3 preemptions.
+    #      The schedules form a tree: the first preemption at every point of thread 0 between its entry into find() and its entry into
+    #      _compile() (the window in which whatever is initialised lazily - finder, tables, a lock - is initialised), to either other thread;
+    #      every further preemption at a point of the run recorded for the prefix where switching is distinguishable: an attribute access,
+    #      call or `with` boundary of a thread that is in its own window (opcode granularity in find/_compile_and_find, line granularity in
+    #      whatever helper they call) or just before / just after a line that changed the router's instance state (found by comparing
+    #      snapshots of all slots, whatever they are called), to either other thread.  thorough: the whole tree for one (route set, paths)
+    #      triple per shard slice; quick: PRNG root-to-leaf walks through it (every node of a walk is a schedule that is executed and judged).
+    def hot_after(info, p, upto=None):
+        return sorted(e for e in info['hot'] if e > p and (upto is None or e <= upto))
+
+    rec_cache = {}
+    nodes_run = [0]
+
+    def node(rs, paths, sw, selftest=None):
+        """run (once) the schedule `sw` with recording; returns its info"""
+        key = (rs, tuple(paths), tuple(sorted(sw.items())), selftest)
+        if key not in rec_cache:
+            if len(rec_cache) > 4000:
+                rec_cache.clear()
+            nodes_run[0] += 1
+            _, s_, info_ = check(rs, paths, sw, len(paths), selftest=selftest, record=True, family='window')
+            rec_cache[key] = (info_, s_.ev)
+        return rec_cache[key][0]
+
+    def window_of_t0(info):
+        """events of thread 0 before it enters _compile() (or all its events if it never does)"""
+        out = []
+        for e, t, fn, ln, off in info['where']:
+            if t != 0:
+                break
+            if co_compile is not None and fn == co_compile.co_name and off is None:
+                break
+            if e in info['hot']:
+                out.append(e)
+        return out
+
+    deep_runs = [0]
+    deep_bad = [0]
+    deep_budget = ctx.n(8000, 400000) if not _DEV.get('no_deep') else 0
+
+    def leaf(rs, paths, sw, selftest=None):
+        deep_runs[0] += 1
+        bad = check(rs, paths, sw, len(paths), selftest=selftest, family='window')[0]
+        if selftest is None:
+            deep_bad[0] += bool(bad)
+        return bad
+
+    def walk(rs, paths, selftest=None, fan2=3, fan3=4):
+        """one PRNG walk from the root of the schedule tree: 1 first preemption, fan2 second ones, fan3 third ones each"""
+        n = len(paths)
+        root = node(rs, paths, {}, selftest)
+        w0 = window_of_t0(root)
+        if not w0:
+            return 0
+        bad = 0
+        p1, k1 = rnd.choice(w0), rnd.randint(1, n - 1)
+        i1 = node(rs, paths, {p1: k1}, selftest)
+        h2 = hot_after(i1, p1)
+        for _ in range(fan2):
+            if not h2:
+                break
+            p2, k2 = rnd.choice(h2), rnd.randint(1, n - 1)
+            i2 = node(rs, paths, {p1: k1, p2: k2}, selftest)
+            h3 = hot_after(i2, p2)
+            for _ in range(fan3):
+                if h3:
+                    bad += bool(leaf(rs, paths, {p1: k1, p2: k2, rnd.choice(h3): rnd.randint(1, n - 1)}, selftest))
+        return bad
+
+    MATCHING = [p[:4] for p in PATHS]
+    if ctx.quick:
+        walks = 0
+        while deep_runs[0] + nodes_run[0] < deep_budget and deep_bad[0] < 40:
+            rs = rnd.choice([0, 1, 2, 3, 3, 3, 4, 4])
+            n = rnd.choice([3, 3, 3, 2])
+            if walks % 40 == 0:
+                cur_paths = [rnd.choice(MATCHING[rs] if rnd.random() < 0.85 else PATHS[rs]) for _ in range(n)]
+                cur_rs = rs
+                rec_cache.clear()
+            rs, paths = cur_rs, cur_paths
+            walks += 1
+            walk(rs, paths)
+        ctx.count('race_window_walks', walks)
+    else:
+        # the whole tree, sliced over the shards at the first level
+        for rs in (3, 4, 0, 1, 2):
+            for n in (3, 2):
+                paths = [rnd.choice(MATCHING[rs]) for _ in range(n)]
+                root = node(rs, paths, {})
+                first = [(p1, k1) for p1 in window_of_t0(root) for k1 in range(1, n)]
+                for idx, (p1, k1) in enumerate(first):
+                    if idx % k0 != i0 or deep_runs[0] > deep_budget or deep_bad[0] >= 40:
+                        continue
+                    i1 = node(rs, paths, {p1: k1})
+                    for p2 in hot_after(i1, p1):
+                        for k2 in range(1, n):
+                            i2 = node(rs, paths, {p1: k1, p2: k2})
+                            for p3 in hot_after(i2, p2):
+                                for k3 in range(1, n):
+                                    leaf(rs, paths, {p1: k1, p2: k2, p3: k3})
+                            rec_cache.pop((rs, tuple(paths), tuple(sorted({p1: k1, p2: k2}.items()))), None)
+                ctx.count('race_window_trees_explored_completely', int(deep_runs[0] <= deep_budget))
+    ctx.count('race_window_leaf_schedules', deep_runs[0])
+
+    # ---- self-test of that exploration, and the tie of the model Ll's lazy half: the same walks against a lock that is created on first use
+    #      (put in place of whatever lock objects the router has); they must find two threads inside `with <lock>` at once, as Ll.lazy_lock_witness says
+    before = deep_runs[0]
+    lazy_bad = 0
+    rec_cache.clear()
+    for w in range(ctx.n(200, 3000) * (20 if _DEV.get('lazy_many') else 1)):
+        rs = rnd.choice([3, 4, 0])
+        if w % 10 == 0:
+            lz_paths = [rnd.choice(MATCHING[rs]) for _ in range(rnd.choice([3, 3, 2]))]
+            lz_rs = rs
+            rec_cache.clear()
+        lazy_bad += walk(lz_rs, lz_paths, selftest='lazy', fan2=2, fan3=3)
+    ctx.notes.append(f'shard {i0}: self-test with a lock created on first use in place of the router\'s lock(s): {lazy_bad} of {deep_runs[0] - before} '
+                     f'three-preemption schedules of the window exploration give a non-serial outcome or a second compile')
+    deep_runs[0] = before
+    for _, _, why, case in sorted(pending_failures, key=lambda x: x[:2]):
+        ctx.oracle(O_A, False, why, case)
+    sess_ll.finish()
     sess.finish()
     sess_nl.finish()
 
@@ -371,6 +690,11 @@ class Boom(Exception):
     def __init__(self, tok):
         self.tok = tok
 
+def _kw(resp, extra):
+    # what the responder was called with beyond its declared fields (arguments injected by resource middleware), rendered late:
+    # a mutable value among them that is shared with another request shows what that request did to it meanwhile
+    resp.set_header('X-Kw', json.dumps(extra, sort_keys=True, default=str))
+
 class Mw:
     def __init__(self, k):
         self.k = k
@@ -388,8 +712,34 @@ class Mw:
         pref = getattr(req.context, 'pref%d' % self.k, None)
         resp.set_header('X-P%d' % self.k, json.dumps([pref, getattr(resp.context, 'pcopy%d' % self.k, None)], default=str, sort_keys=True))
 
+class Inject:
+    # resource middleware that USES what the framework hands it: it injects responder arguments through `params` (the documented way),
+    # completes the parsed request document in place and keeps notes in req.context / resp.context - each followed by a suspension point
+    ASYNC def process_resource(self, req, resp, resource, params):
+        tok = req.get_header('X-Tok') or '-'
+        params['tenant'] = 'tenant-of-' + tok
+        params.setdefault('trail', []).append('res:' + tok)
+        AWAIT yp()
+        req.context.notes = getattr(req.context, 'notes', [])
+        req.context.notes.append(tok)
+        resp.context.seen = getattr(resp.context, 'seen', {})
+        resp.context.seen[tok] = req.path
+        AWAIT yp()
+        if req.method in ('PUT', 'POST', 'PATCH') and 'json' in (req.content_type or ''):
+            doc = AWAIT req.get_media(default_when_empty=None)
+            if isinstance(doc, dict):
+                doc['seen_by'] = tok
+                doc.setdefault('stamps', []).append(tok)
+            elif isinstance(doc, list):
+                doc.append(tok)
+            AWAIT yp()
+        params['checked'] = tok
+    ASYNC def process_response(self, req, resp, resource, req_succeeded):
+        AWAIT yp()
+        resp.set_header('X-Inj', json.dumps([sorted(vars(req.context).items()), sorted(vars(resp.context).items())], default=str, sort_keys=True))
+
 class Item:
-    ASYNC def on_get(self, req, resp, item_id):
+    ASYNC def on_get(self, req, resp, item_id, **extra):
         AWAIT yp()
         q = req.get_param('q')
         AWAIT yp()
@@ -399,15 +749,44 @@ class Item:
         resp.media = {'id': item_id, 'q': q, 'tok': h, 'n': n, 'path': req.path, 'ctx': getattr(req.context, 'mw0', None), 'qs': req.query_string}
         AWAIT yp()
         resp.set_header('X-Item', str(item_id))
-    ASYNC def on_put(self, req, resp, item_id):
+        _kw(resp, extra)
+    ASYNC def on_put(self, req, resp, item_id, **extra):
         AWAIT yp()
         body = AWAIT req.get_media()
+        tok = req.get_header('X-Tok')
+        # the parsed document belongs to this request: complete it in place, as responders do
+        if isinstance(body, dict):
+            body['owner'] = tok
+            body.setdefault('log', []).append(tok)
+        elif isinstance(body, list):
+            body.append({'owner': tok})
         AWAIT yp()
         resp.media = {'got': body, 'id': item_id, 'ct': req.content_type, 'len': req.content_length}
         resp.status = falcon.HTTP_201
+        AWAIT yp()
+        _kw(resp, extra)
+
+class Lit:
+    # a route without any field: `params` starts out empty
+    ASYNC def on_get(self, req, resp, **extra):
+        AWAIT yp()
+        tok = req.get_header('X-Tok')
+        AWAIT yp()
+        resp.media = {'lit': req.path, 'tok': tok, 'tenant': extra.get('tenant'), 'uri_template': req.uri_template}
+        _kw(resp, extra)
+    ASYNC def on_post(self, req, resp, **extra):
+        doc = AWAIT req.get_media()
+        tok = req.get_header('X-Tok')
+        if isinstance(doc, dict):
+            doc['customer'] = tok
+        elif isinstance(doc, list):
+            doc.insert(0, tok)
+        AWAIT yp()
+        resp.media = {'doc': doc, 'tenant': extra.get('tenant')}
+        _kw(resp, extra)
 
 class Echo:
-    ASYNC def on_post(self, req, resp, name):
+    ASYNC def on_post(self, req, resp, name, **extra):
         data = b''
         while True:
             AWAIT yp()
@@ -422,9 +801,10 @@ class Echo:
         resp.append_header('X-Tokens', name)
         AWAIT yp()
         resp.append_header('X-Tokens', req.get_header('X-Tok') or '-')
+        _kw(resp, extra)
 
 class Err:
-    ASYNC def on_get(self, req, resp, code):
+    ASYNC def on_get(self, req, resp, code, **extra):
         AWAIT yp()
         tok = req.get_header('X-Tok')
         AWAIT yp()
@@ -437,7 +817,7 @@ class Err:
         raise Boom(tok)
 
 class Ctx:
-    ASYNC def on_get(self, req, resp, name, key):
+    ASYNC def on_get(self, req, resp, name, key, **extra):
         AWAIT yp()
         hdr = {k: v for k, v in req.headers.items() if k.lower().startswith('x-')}
         AWAIT yp()
@@ -449,9 +829,18 @@ class Ctx:
         resp.context.name = name
         AWAIT yp()
         resp.set_header('X-Ctx-Name', resp.context.name)
+        _kw(resp, extra)
+
+class Conv:
+    # fields of the remaining built-in converters (their instances are created by the router's compile and shared by all requests)
+    ASYNC def on_get(self, req, resp, **fields):
+        AWAIT yp()
+        tok = req.get_header('X-Tok')
+        AWAIT yp()
+        resp.media = {'fields': {k: (v.isoformat() if hasattr(v, 'isoformat') else v) for k, v in sorted(fields.items())}, 'tok': tok, 'path': req.path}
 
 class Chunks:
-    ASYNC def on_get(self, req, resp, gid):
+    ASYNC def on_get(self, req, resp, gid, **extra):
         tok = req.get_header('X-Tok') or '-'
         ASYNC def gen():
             for i in range(3):
@@ -460,6 +849,7 @@ class Chunks:
         AWAIT yp()
         resp.stream = gen()
         resp.content_type = 'application/octet-stream'
+        _kw(resp, extra)
 
 ASYNC def sink(req, resp, **kw):
     AWAIT yp()
@@ -470,13 +860,20 @@ ASYNC def on_boom(req, resp, ex, params):
     resp.status = falcon.HTTP_503
     resp.media = {'boom': ex.tok, 'path': req.path, 'params': params}
 
-def make_app(App, n_mw, independent):
-    app = App(middleware=[Mw(k) for k in range(n_mw)], independent_middleware=independent)
+def make_app(App, n_mw, independent, inject=False):
+    mw = [Mw(k) for k in range(n_mw)]
+    if inject:
+        mw.insert(min(1, len(mw)), Inject())
+    app = App(middleware=mw, independent_middleware=independent)
     app.add_route('/items/{item_id:int}', Item())
     app.add_route('/echo/{name}', Echo())
     app.add_route('/err/{code:int}', Err())
     app.add_route('/u/{name}/k/{key}', Ctx())
     app.add_route('/g/{gid:uuid}', Chunks())
+    app.add_route('/events/{when:dt}', Conv())
+    app.add_route('/ratio/{x:float}/of/{rest:path}', Conv())
+    app.add_route('/health', Lit())
+    app.add_route('/reports/summary', Lit())
     app.add_sink(sink, '/sink/')
     app.add_error_handler(Boom, on_boom)
     return app
@@ -498,42 +895,88 @@ def _build_apps(asgi, yp):
 _TOKEN_RX = __import__('re').compile(r'T\d+x\d+')
 
 
-def _gen_request(rnd, idx):
-    """One request with a token that appears nowhere else."""
+def _gen_request(rnd, idx, side=None, kind=None):
+    """One request with a token that appears nowhere else.  With `side` (a tag shared by a group of twins) the token travels in
+    headers only: method, path, query string and body are a function of (kind, side, PRNG) and can be repeated byte for byte."""
+    import json
     tok = f'T{idx}x{rnd.randrange(10**6)}'
-    kind = rnd.choice(['item_get', 'item_get', 'item_put', 'echo', 'err', 'ctx', 'chunks', 'sink', 'missing', 'notallowed', 'badint'])
+    ptok = side or tok
+    pidx = 0 if side else idx
+    kind = kind or rnd.choice(_KINDS)
     hdrs = {'X-Tok': tok}
     method, path, qs, body = 'GET', '/', '', b''
     if kind == 'item_get':
-        path, qs = f'/items/{rnd.randrange(1000)}', f'q={tok}&n={rnd.randrange(100)}'
+        path, qs = f'/items/{rnd.randrange(1000)}', f'q={ptok}&n={rnd.randrange(100)}'
     elif kind == 'item_put':
-        import json
         method, path = 'PUT', f'/items/{rnd.randrange(1000)}'
-        body = json.dumps({'tok': tok, 'l': [idx] * rnd.randint(0, 4)}).encode()
+        doc = {'tok': ptok, 'l': [pidx] * rnd.randint(0, 4)}
+        if rnd.random() < 0.3:
+            doc = rnd.choice([[ptok, {'n': pidx}], {'tok': ptok, 'inner': {'a': [1, 2]}}, [], {}])
+        body = json.dumps(doc).encode()
         hdrs['Content-Type'] = 'application/json'
     elif kind == 'echo':
-        method, path = 'POST', f'/echo/{tok}'
-        body = (tok * rnd.randint(0, 3)).encode()
+        method, path = 'POST', f'/echo/{ptok}'
+        body = (ptok * rnd.randint(0, 3)).encode()
         hdrs['Content-Type'] = 'application/octet-stream'
     elif kind == 'err':
         path = f'/err/{rnd.choice([400, 404, 409, 500])}'
     elif kind == 'ctx':
-        path, qs = f'/u/{tok}/k/k{idx}', f'a={tok}&b={idx}&a=2'
+        path, qs = f'/u/{ptok}/k/k{pidx}', f'a={ptok}&b={pidx}&a=2'
         hdrs['X-Other'] = f'o-{tok}'
         hdrs['Cookie'] = f'sid={tok}; z={idx}'
     elif kind == 'chunks':
-        path = f'/g/{rnd.randrange(16**8):08x}-0000-4000-8000-{idx:012d}'
+        path = f'/g/{rnd.randrange(16**8):08x}-0000-4000-8000-{pidx:012d}'
     elif kind == 'sink':
-        path = f'/sink/{tok}/x'
+        path = f'/sink/{ptok}/x'
     elif kind == 'missing':
-        path = f'/nothing/{tok}'
+        path = f'/nothing/{ptok}'
     elif kind == 'notallowed':
-        method, path = 'DELETE', f'/items/{idx}'
+        method, path = 'DELETE', f'/items/{pidx}'
+    elif kind == 'conv':
+        if rnd.random() < 0.6:
+            path = '/events/2024-0%d-1%dT0%d:00:00Z' % (rnd.randint(1, 9), rnd.randint(0, 9), rnd.randint(0, 9))
+        else:
+            path = f'/ratio/{rnd.randint(0, 99)}.{rnd.randint(0, 9)}/of/{ptok}/x'
+    elif kind == 'lit_get':
+        path = rnd.choice(['/health', '/reports/summary'])
+        qs = rnd.choice(['', f'v={ptok}'])
+    elif kind == 'lit_post':
+        method, path = 'POST', rnd.choice(['/health', '/reports/summary'])
+        body = json.dumps(rnd.choice([{'sku': 'A-1', 'qty': rnd.randint(1, 3)}, {'ref': ptok, 'lines': [{'n': 1}]}, [1, 2, ptok]])).encode()
+        hdrs['Content-Type'] = 'application/json'
     else:
-        path = f'/items/{tok}'
+        path = f'/items/{ptok}'
     if body:
         hdrs['Content-Length'] = str(len(body))
     return {'kind': kind, 'tok': tok, 'method': method, 'path': path, 'qs': qs, 'headers': hdrs, 'body': body}
+
+
+_KINDS = ['item_get', 'item_get', 'item_put', 'item_put', 'echo', 'err', 'ctx', 'chunks', 'sink', 'missing', 'notallowed', 'badint', 'lit_get', 'lit_get', 'lit_post', 'conv']
+
+
+def _gen_requests(rnd, n, ctx=None):
+    """n concurrent requests: independent ones (60%), all of one kind (20%), or TWINS (20%): identical method, path, query string and
+    body bytes - they differ only in the side channel (the X-Tok header and headers derived from it)"""
+    u = rnd.random()
+    if u < 0.6:
+        mode, specs = 'mixed', [_gen_request(rnd, i) for i in range(n)]
+    elif u < 0.8:
+        k0 = rnd.choice(_KINDS)
+        mode, specs = 'same_kind', [_gen_request(rnd, i, kind=k0) for i in range(n)]
+    else:
+        mode = 'twins'
+        first = _gen_request(rnd, 0, side=f'S{rnd.randrange(10**6)}', kind=rnd.choice(_KINDS + ['item_put', 'lit_get', 'lit_post']))
+        specs = [first]
+        for i in range(1, n):
+            tok = f'T{i}x{rnd.randrange(10**6)}'
+            hd = {k: v.replace(first['tok'], tok) for k, v in first['headers'].items()}
+            specs.append(dict(first, tok=tok, headers=hd))
+    if ctx is not None:
+        ctx.count('requests_' + mode)
+        if mode == 'twins':
+            ctx.count('twins_kind_' + specs[0]['kind'])
+            ctx.count('twins_with_identical_nonempty_body', int(bool(specs[0]['body'])))
+    return specs
 
 
 def _asgi_tasks(ctx):
@@ -644,23 +1087,16 @@ def _asgi_tasks(ctx):
         for ci in range(ctx.n(2400, 40000)):
             n = rnd.choice([2, 2, 3])
             n_mw, indep = rnd.choice([0, 1, 2]), rnd.random() < 0.5
-            specs = [_gen_request(rnd, i) for i in range(n)]
-            if rnd.random() < 0.25:
-                # the same route and kind for everybody: the worst case for shared per-route state
-                k0 = _gen_request(rnd, 0)['kind']
-                for i in range(n):
-                    while True:
-                        sp = _gen_request(rnd, i)
-                        if sp['kind'] == k0:
-                            specs[i] = sp; break
+            inj = rnd.random() < 0.5
+            specs = _gen_requests(rnd, n, ctx)
             chunkings = [[rnd.randint(0, 7) for _ in range(rnd.choice([0, 0, 1, 2]))] for _ in range(n)]
             policy = rnd.choice(['uniform', 'uniform', 'sticky', 'rr'])
             seed = rnd.randrange(2**32)
             prnd = __import__('random').Random(seed)
-            if (n_mw, indep) not in serial_apps:
-                serial_apps[(n_mw, indep)] = ns['make_app'](falcon.asgi.App, n_mw, indep)
-            want = await serial(serial_apps[(n_mw, indep)], specs, chunkings)     # one at a time, on an app of its own
-            app = ns['make_app'](falcon.asgi.App, n_mw, indep)            # fresh: these are its first-ever requests
+            if (n_mw, indep, inj) not in serial_apps:
+                serial_apps[(n_mw, indep, inj)] = ns['make_app'](falcon.asgi.App, n_mw, indep, inj)
+            want = await serial(serial_apps[(n_mw, indep, inj)], specs, chunkings)     # one at a time, on an app of its own
+            app = ns['make_app'](falcon.asgi.App, n_mw, indep, inj)       # fresh: these are its first-ever requests
             got, order, why = await concurrent(app, specs, chunkings, policy, prnd)
             if why is None:
                 for i in range(n):
@@ -679,10 +1115,11 @@ def _asgi_tasks(ctx):
                 if again != want:
                     why = 'after the concurrent round the same app answers the same requests differently when run one at a time'
             switches = sum(1 for a, b in zip(order, order[1:]) if a != b)
-            ctx.oracle(O_B, why is None, why, {'interface': 'asgi', 'middleware': n_mw, 'independent_middleware': indep, 'requests': specs,
+            ctx.oracle(O_B, why is None, why, {'interface': 'asgi', 'middleware': n_mw, 'independent_middleware': indep, 'injecting_resource_middleware': inj, 'requests': specs,
                                                'body_chunking': chunkings, 'policy': policy, 'schedule_seed': seed, 'order': order})
-            ctx.seen(('b', n_mw, indep, str(specs), seed), switches > 0)
+            ctx.seen(('b', n_mw, indep, inj, str(specs), seed), switches > 0)
             ctx.count(f'asgi_{n}req')
+            ctx.count('asgi_apps_with_injecting_resource_middleware', int(inj))
             ctx.count('asgi_turns', len(order))
             for sp in specs:
                 ctx.count('asgi_kind_' + sp['kind'])
@@ -702,6 +1139,8 @@ def _wsgi_threads(ctx):
     FALCON_DIR = __import__('os').path.dirname(falcon.__file__)
     cur = {'sched': None}
     tls = threading.local()
+    falcon_modules = [m for name, m in list(sys.modules.items()) if m is not None and (name == 'falcon' or name.startswith('falcon.'))]
+    locks = lib_sched.LockPatch(falcon_modules, lambda fn: fn.startswith(FALCON_DIR))
 
     def yp():
         s = cur['sched']
@@ -762,23 +1201,26 @@ def _wsgi_threads(ctx):
 
     serial_apps = {}
 
-    def serial_app(n_mw, indep):
-        if (n_mw, indep) not in serial_apps:
-            serial_apps[(n_mw, indep)] = ns['make_app'](falcon.App, n_mw, indep)
-        return serial_apps[(n_mw, indep)]
+    def serial_app(n_mw, indep, inj):
+        if (n_mw, indep, inj) not in serial_apps:
+            serial_apps[(n_mw, indep, inj)] = ns['make_app'](falcon.App, n_mw, indep, inj)
+        return serial_apps[(n_mw, indep, inj)]
 
     events_seen = []
     for ci in range(ctx.n(500, 10000)):
         n = rnd.choice([2, 2, 3])
         n_mw, indep = rnd.choice([0, 1, 2]), rnd.random() < 0.5
-        specs = [_gen_request(rnd, i) for i in range(n)]
-        want = serial(serial_app(n_mw, indep), specs)
-        app = ns['make_app'](falcon.App, n_mw, indep)
+        inj = rnd.random() < 0.5
+        specs = _gen_requests(rnd, n, ctx)
+        want = serial(serial_app(n_mw, indep, inj), specs)
         E = events_seen[-1] if events_seen else 900
         k = rnd.choice([1, 2, 3, 4, 6, 10])
         sw = {p: rnd.choice([1, 2]) for p in rnd.sample(range(1, max(E, 50)), k)}
         s = lib_sched.Sched(n, sw)
-        app._router._compile_lock = lib_sched.SLock(s, lambda: tls.i)
+        # whatever locks the app, its router and the modules behind them create or hold become scheduler-aware (no attribute name assumed)
+        locks.activate(s, lambda: tls.i)
+        app = ns['make_app'](falcon.App, n_mw, indep, inj)
+        locks.adopt(app, depth=3)
         cur['sched'] = s
 
         def body(i):
@@ -786,13 +1228,17 @@ def _wsgi_threads(ctx):
                 tls.i = i
                 return call(app, specs[i])
             return b
-        got = lib_sched.run_threads(s, [body(i) for i in range(n)], lambda i: tracer_for(s, i))
+        try:
+            got = lib_sched.run_threads(s, [body(i) for i in range(n)], lambda i: tracer_for(s, i))
+        finally:
+            locks.deactivate()
         cur['sched'] = None
         events_seen.append(s.ev)
+        ctx.count('wsgi_sched_locks_made_scheduler_aware', len(locks.created))
         why = 'deadlock / a thread did not finish' if (s.dead or any(g[0] == 'deadlock' for g in got)) else verdict(specs, got, want)
         ctx.oracle(O_W, why is None, why, {'interface': 'wsgi', 'mode': 'deterministic scheduler', 'middleware': n_mw, 'independent_middleware': indep,
-                                           'requests': specs, 'switch_points': sorted(sw.items()), 'events': s.ev})
-        ctx.seen(('w', n_mw, indep, str(specs), tuple(sorted(sw.items()))), s.preemptions > 0)
+                                           'injecting_resource_middleware': inj, 'requests': specs, 'switch_points': sorted(sw.items()), 'events': s.ev})
+        ctx.seen(('w', n_mw, indep, inj, str(specs), tuple(sorted(sw.items()))), s.preemptions > 0)
         ctx.count(f'wsgi_sched_{n}thr')
         ctx.count('wsgi_sched_preemptions', s.preemptions)
 
@@ -803,9 +1249,10 @@ def _wsgi_threads(ctx):
         for ci in range(ctx.n(240, 5000)):
             n = rnd.choice([2, 3, 3])
             n_mw, indep = rnd.choice([0, 1, 2]), rnd.random() < 0.5
-            specs = [_gen_request(rnd, i) for i in range(n)]
-            want = serial(serial_app(n_mw, indep), specs)
-            app = ns['make_app'](falcon.App, n_mw, indep)
+            inj = rnd.random() < 0.5
+            specs = _gen_requests(rnd, n, ctx)
+            want = serial(serial_app(n_mw, indep, inj), specs)
+            app = ns['make_app'](falcon.App, n_mw, indep, inj)
             got = [None] * n
             bar = threading.Barrier(n)
 
@@ -821,8 +1268,9 @@ def _wsgi_threads(ctx):
             for t in ts:
                 t.join(180)
             why = 'a thread did not finish' if any(t.is_alive() for t in ts) else verdict(specs, got, want)
-            ctx.oracle(O_W, why is None, why, {'interface': 'wsgi', 'mode': 'free-running threads', 'middleware': n_mw, 'independent_middleware': indep, 'requests': specs})
-            ctx.seen(('wf', n_mw, indep, str(specs)), True)
+            ctx.oracle(O_W, why is None, why, {'interface': 'wsgi', 'mode': 'free-running threads', 'middleware': n_mw, 'independent_middleware': indep,
+                                               'injecting_resource_middleware': inj, 'requests': specs})
+            ctx.seen(('wf', n_mw, indep, inj, str(specs)), True)
             ctx.count(f'wsgi_free_{n}thr')
     finally:
         sys.setswitchinterval(old)
@@ -919,7 +1367,9 @@ INVENTORY = [
     #      _compile_and_find() under _compile_lock (model Sc)
     ('falcon/routing/compiled.py', 'CompiledRouter._ast', 'inst-attr:rebind', K_LOCK, '_compile() only', {}),
     ('falcon/routing/compiled.py', 'CompiledRouter._converters', 'inst-attr:.append,rebind', K_LOCK, '_compile() / _generate_ast() only', {}),
-    ('falcon/routing/compiled.py', 'CompiledRouter._find', 'inst-attr:rebind', K_LOCK, 'add_route() (configuration) and _compile_and_find() under the lock', {}),
+    ('falcon/routing/compiled.py', 'CompiledRouter._find', 'inst-attr:lazy-init:call:_compile,rebind', K_LOCK,
+     'add_route() (configuration) and the lazy initialisation `if self._find == self._compile_and_find: self._find = self._compile()` in _compile_and_find(), '
+     'inside `with self._compile_lock` - a lock created in __init__ (a lazily created lock would be an item of shape lazy-init:lock, which no proved kind admits)', {}),
     ('falcon/routing/compiled.py', 'CompiledRouter._finder_src', 'inst-attr:rebind', K_LOCK, '_compile() only', {}),
     ('falcon/routing/compiled.py', 'CompiledRouter._patterns', 'inst-attr:rebind', K_LOCK, '_compile() only (reset, then filled through the alias `patterns`)', {}),
     ('falcon/routing/compiled.py', 'CompiledRouter._return_values', 'inst-attr:rebind', K_LOCK, '_compile() only (reset, then filled through the alias `return_values`)', {}),
@@ -1054,9 +1504,19 @@ def _locate_memo(row_or_key):
     """live callable for a memo item, and a fresh-computation callable (the undecorated function) if there is one"""
     import lib_inventory as L
     file, qual = row_or_key[0], row_or_key[1]
+    parts = qual.split('.')
     if (file, qual) == ('falcon/media/handlers.py', 'Handlers._create_resolver.resolve'):
         from falcon.media import Handlers
         fn = Handlers()._resolve
+    elif 'self' in parts[1:-1]:
+        # a memo created by a call expression and stored on an instance (`self.x = ... lru_cache(...)(f)` in a method of a class):
+        # take it from a default-constructed instance
+        fn = None
+        cls = L.locate(file, parts[0])
+        try:
+            fn = getattr(cls(), parts[parts.index('self') + 1])
+        except Exception:  # noqa
+            fn = None
     else:
         fn = L.locate(file, qual)
     if fn is None or not callable(fn):
@@ -1285,7 +1745,10 @@ def _memo_tie(ctx):
     #      lookup and store; the same key is computed concurrently, stores race, the cache is full
     tls = threading.local()
     for label, fn, wrapped, probe, cap in targets:
-        code = wrapped.__code__
+        code = getattr(wrapped, '__code__', None)
+        if code is None:
+            ctx.count('memo_tie_race_skipped_not_a_python_function')
+            continue
         for _ in range(ctx.n(24, 300)):
             n = rnd.choice([2, 2, 3])
             small = list(dict.fromkeys(a for a in _probe_args(probe, rnd, 4)))[:rnd.choice([1, 2, 3])]
@@ -1403,12 +1866,14 @@ LEVEL_TEXT = ('Machine-checked proofs (Lean 4): (a) the lazy-compile protocol of
               '(c) the kinds of process-wide mutable state that exist in falcon/: a shared bounded memo table at lookup/compute/store granularity with racing computations of one key, overwriting stores, arbitrary eviction and '
               'cache_clear() (Sm.memo_transparent, via the invariant Sm.step_inv), a lazily initialised cell written by racing threads (Lz.lazy_init_idempotent), and their composition with the locked router compile and '
               'per-request programs through safe protocols and products of protocols (Cp.noninterference, Cp.memo_safe/lazy_safe/router_safe/prod_safe, Cp.falcon_shared_noninterference). '
-              'Tie for (c): an AST inventory of every piece of state in falcon/ that outlives a request (memo decorators, module-level containers/instances, mutable default arguments, class attributes, instance attributes of '
-              'long-lived objects written outside __init__) is compared on every run with a hand-classified table (46 items: 8+3 memos, 7 lock-protected, 13 configuration, 10 read-only, 2 false positives, 3 other); every memoised '
+              'Tie for (c): an AST inventory of every piece of state in falcon/ that outlives a request (memo decorators and memo applications written as call expressions, partial objects binding containers, module-level containers/instances, mutable default arguments, class attributes, instance attributes of '
+              'long-lived objects written outside __init__ directly or through a local alias, lazy initialisations with the kind of value they create) is compared on every run with a hand-classified table (46 items: 8+3 memos, 7 lock-protected, 13 configuration, 10 read-only, 2 false positives, 3 other); every memoised '
               'function found is probed for shared mutable results; the real lru_cache-wrapped functions and the header-name cache are replayed through the Sm model (single-thread sequences and scheduled thread races). '
-              'Tie: the real CompiledRouter runs under a deterministic thread scheduler (sys.settrace; opcode events inside find/_compile_and_find, line events elsewhere; scheduler-aware lock in router._compile_lock); '
-              'every explored schedule (all single preemptions, targeted and PRNG 2-3 preemptions) is mapped step by step onto the 12 step kinds of the model and replayed by the compiled model, comparing per-thread outcome, '
-              'number of compiles, order of compile starts/publishes and which way each thread went; 2-3 concurrent ASGI requests over generated apps are interleaved at every receive/send/await by a scripted gate and '
+              '(d) where the lock comes from (Ll): a lock created together with the object gives mutual exclusion for any number of threads under every schedule and is the only lock object ever (eager_lock_mutual_exclusion, via run_inv); '
+              'a lock created on first use lets two threads into the critical section with different locks (lazy_lock_witness). '
+              'Tie: the real CompiledRouter runs under a deterministic thread scheduler (sys.settrace; opcode events inside find/_compile_and_find, line events elsewhere; every lock the router creates or holds is replaced by a scheduler-aware one, whatever attribute it lives in); '
+              'every explored schedule (all single preemptions, targeted and PRNG 2-3 preemptions, and the tree of 3 threads x 3 preemptions over the lazy-compile window) is mapped step by step onto the 12 step kinds of the model and replayed by the compiled model, comparing per-thread outcome, '
+              'number of compiles, order of compile starts/publishes, which way each thread went and how many lock objects exist (all of them before the first request); the lock protocol of the same runs, and of runs with a lazily created lock put in its place, is replayed through Ll; 2-3 concurrent ASGI requests over generated apps are interleaved at every receive/send/await by a scripted gate and '
               '2-3 WSGI threads are run under the same deterministic scheduler and free-running, all compared with serial execution by an independent oracle.')
 LEVEL_NOTE = ('PARTIAL (proof, partial): the hypothesis of the composition theorem - every write after import goes to the request\'s own objects or to an inventoried memo / lazy cell / lock-protected item - rests on a '
               'syntactic inventory (AST detectors + hand classification, tied to the source on every run) and on interleaved-vs-serial execution, not on a semantic analysis of the Python code; configuration items assume '
